@@ -512,5 +512,12 @@ def _opt_truth(prog):
     return opt_truth(prog, ["dao.FromDAOState", "dao.ToDAOState"], 3)
 
 
+def _shared_default(prog):
+    # a conversion state as a default argument would be shared by all conversions
+    from .shareddefault import shared_default
+
+    return shared_default(prog, ["ormatic.dao"], 30)
+
+
 def run(prog: Program, tier: str) -> List[RuleResult]:
-    return [idkey(prog), dao_order(prog), dao_direction(prog), dao_collect(prog), dao_window(prog), dao_value_truth(prog), dao_fresh(prog), _opt_truth(prog)]
+    return [idkey(prog), dao_order(prog), dao_direction(prog), dao_collect(prog), dao_window(prog), dao_value_truth(prog), dao_fresh(prog), _opt_truth(prog), _shared_default(prog)]
